@@ -2,12 +2,14 @@
 //! injector (C26), two-endpoint substream delivery for mplex and yamux (C24).
 mod codec;
 mod limits;
+mod streams;
 
 fn main() {
     let a = vcommon::Args::parse();
     match a.mode.as_str() {
         "codec" => codec::main(&a),
         "limits" => limits::main(&a),
+        "streams" => streams::main(&a),
         m => {
             eprintln!("unknown mode {m}");
             std::process::exit(2)
